@@ -7,8 +7,8 @@ import (
 	"sort"
 	"strings"
 
-	protovalidate "buf.build/go/protovalidate"
 	"buf.build/gen/go/bufbuild/protovalidate/protocolbuffers/go/buf/validate"
+	protovalidate "buf.build/go/protovalidate"
 	"google.golang.org/protobuf/proto"
 	"google.golang.org/protobuf/reflect/protoreflect"
 	"google.golang.org/protobuf/types/descriptorpb"
